@@ -112,6 +112,9 @@ def families(tier):
         [L(1), L(2), L(3), L(4, 5)],
         [L("a"), L("b")],
         [L(1), L(True)],
+        [L(True), L(1)],  # equal values of different types, in both orders of creation
+        [L(0), L(False)],
+        [L(False), L(0)],
     ]
     for s in lit_sets:
         is_str = any(isinstance(v, str) for a in s for v in typing.get_args(a))
@@ -138,6 +141,14 @@ def families(tier):
     # value types nested two levels deep (no value type at depth 1)
     fam.append(([[bytes | (StartsWith["a"] & EndsWith["b"])]], [(str,), (bytes,)]))
     fam.append(([[(str & Regexp["^a"]) | bytes]], [(str,), (bytes,)]))
+    # an intersection with a static member inside a union whose other branch covers a wider class: the static member's
+    # test must be part of the emitted check (the argument's class may come from the other branch)
+    fam.append(([[(bool & Dependent[int, positive]) | L(5)]], [(int,), (bool,)]))
+    fam.append(([[(bool & Dependent[int, positive]) | Dependent[int, big]], [L(7)]], [(int,), (bool,)]))
+    # a union at one dispatched position next to a second conditioned position: the emitted conjunction must keep
+    # the union's alternatives together (operator precedence of `or` / `and` in the emitted text)
+    fam.append(([[L(1) | L("a"), L(5)]], [(int, int), (str, int)]))
+    fam.append(([[Regexp["^a"] | Dependent[int, positive], L(5)], [str, L(6)]], [(str, int), (int, int)]))
     if tier == "thorough":
         fam.append(([[L(i)] for i in range(1, 8)], [(int,)]))
         fam.append(([[L(0), L(1), L(2)], [L(1), L(0), int]], [(int, int, int)]))
